@@ -336,6 +336,15 @@ def check(run: Run) -> None:
     check_dict_typing(run, TermCtx(m, max_depth=1, opaque={"lookup_type", "remap_by_types"}), m, tt, "C08.R7")
     check_iterable_test(run, m, "C08.R12")
     check_mro_walk(run, m, "C08.R14")
+    # "rejects a non-boolean filter with ValueError" - also at depth: nothing on the way may catch it
+    from .c10 import check_refusals_propagate
+
+    check_refusals_propagate(run, m, "C08.R15")
+    run.rule("C08.R16", "the item type of a derived stream is what type following of the operator's own lambda returned (C01.R1-R3 re-evaluated)")
+    from ..report import Relabel as _Rl
+    from .c01 import check_plumbing as _plumb
+
+    _plumb(_Rl(run, "C08.R16"), m)
     check_nested_lambda_followed(run, m, tt, "C08.R13")
 
 
